@@ -6,7 +6,7 @@
    surplus or excludes somebody. *)
 From Coq Require Import ZArith List Bool String Lia PArith.
 From Droop Require Import Model.KernelBase Model.Str Model.Arith Model.Prelude Model.State Model.Prims Model.RulesGregory
-  Model.Election Proofs.CmdMeta Proofs.Status Proofs.SortLemmas Proofs.Forward Proofs.ForwardOps Proofs.ForwardGreg2.
+  Model.Election Proofs.CmdMeta Proofs.Status Proofs.SortLemmas Proofs.Forward Proofs.ForwardOps Proofs.ForwardGreg2 Proofs.GuardedLemmas Gen.FixedKernels Gen.GuardedKernels.
 Import ListNotations.
 
 (* ================= Part A ================= *)
@@ -548,6 +548,88 @@ Proof.
 Qed.
 
 
+(* the zero-vote batch of wigm (defeat_batch=zero): needs the arithmetic's == to be reflexive on the lowest tally *)
+Lemma min_vote_in (l : list cand) v : min_vote A l = Some v -> exists c, In c l /\ cvote c = v.
+Proof.
+  unfold min_vote. destruct l as [|c l]; [discriminate|]. intros E. inversion E as [Ev]. clear E.
+  assert (G: forall (t : list cand) (m : T A), (exists c0, In c0 (c :: l) /\ cvote c0 = m) -> (forall y, In y t -> In y (c :: l)) ->
+             exists c0, In c0 (c :: l) /\ cvote c0 = fold_left (fun m y => if ltv A (cvote y) m then cvote y else m) t m).
+  { induction t as [|y t IH]; intros m Hm Ht; cbn [fold_left]; [exact Hm|]. apply IH; [|intros z Hz; apply Ht; right; exact Hz].
+    destruct (ltv A (cvote y) m); [exists y; split; [apply Ht; left; reflexivity|reflexivity]|exact Hm]. }
+  apply G; [exists c; split; [left; reflexivity|reflexivity]|intros y Hy; right; exact Hy].
+Qed.
+
+Lemma wigm_defeat_lt' (s : est) : (forall x : T A, eqv A x x = true) -> ND A s ->
+  crashed (wigm_defeat A cfg s) = false -> (mu (wigm_defeat A cfg s) < mu s)%nat.
+Proof.
+  intros Heq Hnd. unfold wigm_defeat. destruct (low_candidates A s) as [[lv lows]|] eqn:El; [|rewrite sticky_crash; discriminate].
+  destruct (eqv A lv (V0 A) && cf_batch_zero cfg && (seats_left A cfg s <=? nlen (hopefuls A s) - nlen lows)%Z).
+  - intros _.
+    assert (Hlow: forall c, In c lows -> In c (hopefuls A s)) by exact (low_in_hopefuls A s lv lows El).
+    assert (Hne: exists c, In c lows).
+    { unfold low_candidates in El. destruct (min_vote A (hopefuls A s)) as [mv|] eqn:Em; [|discriminate]. inversion El; subst lv lows.
+      destruct (min_vote_in _ _ Em) as (c & Hc & Ev). exists c. apply filter_In. split; [exact Hc|rewrite Ev; apply Heq]. }
+    set (s1 := fold_left (fun s c => defeat A cfg (cid c) "Defeat batch(zero)" s) lows s).
+    assert (H1: (mu s1 < mu s)%nat).
+    { unfold s1. apply fold_defeat_lt; [exact Hnd| |].
+      - intros c Hc c' Hc' E. left. exact (hopeful_sat A s c Hnd (Hlow c Hc) c' Hc' E).
+      - destruct Hne as (c & Hc). exists c. split; [exact Hc|split].
+        + exact (hopeful_sat A s c Hnd (Hlow c Hc)).
+        + pose proof (Hlow c Hc) as Hh. unfold hopefuls in Hh. apply filter_In in Hh. apply in_map. exact (proj1 Hh). }
+    assert (H2: R A s1 (fold_left (fun s c => transfer_defeated_one A cfg (cid c) s) lows s1)).
+    { apply f_fold0; [intros; apply f_transfer_defeated_one; assumption|apply R_refl]. }
+    pose proof (mu_R _ _ H2). lia.
+  - apply (defeat_after_tie_lt _ "Defeat" lv lows s (bt_simple_ok A cfg "defeat") (bt_simple_total "defeat") Hnd El).
+Qed.
+
+Lemma wigm_body_decreases' n : (forall x : T A, eqv A x x = true) ->
+  T3 (fun s => ND A s /\ guard_main A cfg s = true /\ mu s = n)
+     (Do (new_round A cfg) ;;
+      Do (elect_with_quota A cfg (has_quota_exact A) (fun _ _ => true) None (fun _ => true)) ;;
+      Ite (fun s => nonempty (pendings A s))
+        (Do (transfer_high_surplus A cfg (bt_simple A cfg "surplus") (rew_wigm A)))
+        (Ite (fun s => nonempty (hopefuls A s)) (Do (wigm_defeat A cfg)) Skip))
+     (NDlt n) (fun _ => True) (NDlt n).
+Proof.
+  intros Heq.
+  eapply t_seq with (M := fun s => NDm n s /\ (1 <= n)%nat).
+  { apply t_do. intros s (Hnd & Hg & Hm). split; [apply step_le; [intros t Ht; apply f_new_round, R_refl|split; [exact Hnd|lia]]|].
+    rewrite <- Hm. apply hopefuls_mu_pos. unfold guard_main in Hg. apply andb_prop in Hg. destruct Hg as [Hg1 Hg2].
+    destruct (hopefuls A s); [|discriminate]. unfold nlen in Hg1. cbn in Hg1. lia. }
+  eapply t_seq with (M := fun s => NDm n s /\ (1 <= n)%nat).
+  { apply t_do. intros s [H Hn]. split; [|exact Hn]. apply step_le; [|exact H]. intros t Ht. apply f_elect_with_quota; [apply R_refl|exact Ht]. }
+  apply t_ite.
+  - apply t_do_nc. intros s [[[Hnd Hm] Hn] _] Hc. pose proof (transfer_high_lt _ (rew_wigm A) s (bt_simple_ok A cfg "surplus") (bt_simple_total "surplus") Hnd Hc) as Hlt.
+    split; [|lia]. exact (nd_R A s _ (f_transfer_high A cfg s _ _ s (bt_simple_ok A cfg "surplus") (R_refl A s) Hnd) Hnd).
+  - apply t_ite.
+    + apply t_do_nc. intros s [[[[Hnd Hm] Hn] _] _] Hc. pose proof (wigm_defeat_lt' s Heq Hnd Hc) as Hlt.
+      split; [|lia]. exact (nd_R A s _ (f_wigm_defeat A cfg s s (R_refl A s) Hnd) Hnd).
+    + apply t_skip'. intros s [[[[Hnd Hm] Hn] Hp] Hh]. split; [exact Hnd|].
+      rewrite no_cont_mu_zero; [lia| |]; [destruct (hopefuls A s); [reflexivity|discriminate Hh]|destruct (pendings A s); [reflexivity|discriminate Hp]].
+Qed.
+
+Theorem wigm_total' fuel (s : est) : (forall x : T A, eqv A x x = true) -> ND A s ->
+  (2 * List.length (cands s) < Pos.to_nat fuel)%nat -> exists r, exec (@crashed A) fuel (wigm A cfg) s = Some r.
+Proof.
+  intros Heq Hnd Hf. unfold wigm. cbn [exec].
+  set (s1 := log_action A cfg TBegin "Begin Count" (start_count A (wigm_quota A cfg) s)).
+  assert (R1: R A s s1) by (apply f_log, f_start_count, R_refl).
+  destruct (crashed s1); [eexists; reflexivity|].
+  match goal with |- context[loopP est ?run ?g fuel s1] =>
+    destruct (while_total est (@crashed A) (ND A) mu g
+                (Do (new_round A cfg) ;;
+                 Do (elect_with_quota A cfg (has_quota_exact A) (fun _ _ => true) None (fun _ => true)) ;;
+                 Ite (fun s => nonempty (pendings A s))
+                   (Do (transfer_high_surplus A cfg (bt_simple A cfg "surplus") (rew_wigm A)))
+                   (Ite (fun s => nonempty (hopefuls A s)) (Do (wigm_defeat A cfg)) Skip)) fuel) with (s := s1) as [[s2 k2] E2] end.
+  - cbn [loopfree]. tauto.
+  - intros n. eapply t_conseq; [| | | |apply (wigm_body_decreases' n Heq)]; cbv beta; auto.
+  - exact (nd_R A s s1 R1 Hnd).
+  - pose proof (mu_R _ _ R1). pose proof (mu_bound s). lia.
+  - cbn [exec] in E2. rewrite E2. destruct k2; try (eexists; reflexivity).
+    destruct (crashed (unpend_all A cfg s2)); eexists; reflexivity.
+Qed.
+
 (* ---- cfer, cfer-batch ---- *)
 Lemma cfer_find_batch_E (s : est) : BatchE (cfer_find_batch A cfg s).
 Proof.
@@ -913,4 +995,30 @@ Proof.
   { destruct Hr as [[-> Hbz]|[->|[->|[->| ->]]]]; cbn [rule_cmd]; [apply wigm_total|apply wigm_prf_total|apply scotland_total|apply cfer_total|apply mpls_total]; assumption. }
   destruct Ht as [[s1 k1] E1]. rewrite E1. destruct k1; eexists; eexists; reflexivity.
 Qed.
+
+(* wigm with defeat_batch=zero as well, given that the arithmetic's == is reflexive (it is, for all three families: see below) *)
+Theorem wigm_count_terminates_any_option (pr : profile) fuel : (forall x : T A, eqv A x x = true) ->
+  NoDup (map pc_cid (pr_cands pr)) -> (2 * List.length (pr_cands pr) < Pos.to_nat fuel)%nat ->
+  exists s k, exec (@crashed A) fuel (count_cmd A cfg RWigm) (init_state A cfg pr) = Some (s, k).
+Proof.
+  intros Heq Hnd Hf. unfold count_cmd. cbn [exec rule_cmd].
+  set (s0 := set_cands (init_state A cfg pr) _).
+  destruct (crashed s0); [eexists; eexists; reflexivity|].
+  destruct (wigm_total' A cfg fuel s0 Heq) as [[s1 k1] E1].
+  - unfold ND, s0. cbn [cands set_cands]. rewrite map_map. cbn [cid with_vote]. rewrite cids_init. exact Hnd.
+  - unfold s0. cbn [cands set_cands]. rewrite map_length, cands_init_len. exact Hf.
+  - rewrite E1. destruct k1; eexists; eexists; reflexivity.
+Qed.
 End Count.
+
+(* == is reflexive in each of the three arithmetic families *)
+Lemma eqv_refl_fixed p d x : eqv (Fixed p d) x x = true.
+Proof. cbn. unfold res_true, FixedKernels.dunder_eq, operand_value, bind. rewrite Z.eqb_refl. reflexivity. Qed.
+Lemma eqv_refl_rational dp x : eqv (Rational dp) x x = true.
+Proof. cbn. apply QArith_base.Qeq_bool_iff. reflexivity. Qed.
+Lemma eqv_refl_guarded p g d st x : (0 <= g)%Z -> eqv (Guarded p g d st) x x = true.
+Proof.
+  intros Hg. cbn [Guarded eqv]. destruct (GuardedLemmas.rel_of_cmp (mk_guarded_cls p g d st) x x) as (E1 & _). rewrite E1.
+  unfold res_true. rewrite Z.sub_diag. cbn [Z.abs]. destruct (GuardedLemmas.geps_spec p g d st Hg) as [He _]. cbv zeta in He.
+  destruct (0 <? g_geps (mk_guarded_cls p g d st))%Z eqn:E; [reflexivity|apply Z.ltb_ge in E; lia].
+Qed.
